@@ -185,7 +185,7 @@ def digest(d):
     return h.hexdigest()
 
 
-IMPL_ONLY = ("sel", "selcast", "selauto", "open", "listing", "digest")
+IMPL_ONLY = ("listing", "digest")
 
 
 def j_schema(sch):
@@ -432,7 +432,8 @@ def db_fixed():
         iset = [F("i-id", ":integer", [":key"]), F("polarity", ":integer"), F("n0", ":integer")]
         iphen = [F("i-id", ":integer"), F("x", ":string")]
         S = [{"name": cps("item"), "fields": item}, {"name": cps("item-set"), "fields": iset},
-             {"name": cps("item-phenomenon"), "fields": iphen}]
+             {"name": cps("item-phenomenon"), "fields": iphen},
+             {"name": cps("set"), "fields": [F("s-id", ":integer"), F("x", ":string")]}]   # no source file at all
         files = [{"name": cps("item"), "tx": {"recs": rows, "mtime": 5}, "gz": None},
                  {"name": cps("item-set"), "tx": None,
                   "gz": {"recs": [R("0", "0", "0"), R("1", "-1", "-1"), R(None, None, None)], "mtime": 5}},
@@ -440,15 +441,22 @@ def db_fixed():
                   "gz": {"recs": [R("0", "0"), R("2", None)], "mtime": 9}}]
         derived = [{"name": cps("item-set"), "fields": [iset[2], iset[1], iset[0]]},
                    {"name": cps("item"), "fields": [item[2], F("y", ":integer"), item[0]] + item[3:]},
-                   {"name": cps("item-phenomenon"), "fields": [iphen[1], iphen[0], F("c0", ":string")]}]
+                   {"name": cps("item-phenomenon"), "fields": [iphen[1], iphen[0], F("c0", ":string")]},
+                   {"name": cps("set"), "fields": [F("x", ":string")]}]
+        reordered = [{"name": cps("set"), "fields": [F("x", ":string"), F("s-id", ":integer")]},
+                     {"name": cps("item-phenomenon"), "fields": [iphen[1], iphen[0]]},
+                     {"name": cps("item"), "fields": list(reversed(item))},
+                     {"name": cps("item-set"), "fields": [iset[1], iset[2], iset[0]]}]     # reorder only
         stale = [{"name": cps("item"), "tx": {"recs": [R("7")], "mtime": 9}, "gz": {"recs": [R("8", "g")], "mtime": 4}},
                  {"name": cps("item-set"), "tx": {"recs": [R("7", "7", "7")], "mtime": 7},
                   "gz": {"recs": [R("8", "8", "8")], "mtime": 7}},
-                 {"name": cps("item-phenomenon"), "tx": None, "gz": {"recs": [R("5", "five")], "mtime": 3}}]
+                 {"name": cps("item-phenomenon"), "tx": None, "gz": {"recs": [R("5", "five")], "mtime": 3}},
+                 {"name": cps("set"), "tx": {"recs": [R("1", "stale set")], "mtime": 2},
+                  "gz": {"recs": [R("2", "stale set gz")], "mtime": 6}}]
         for autocast in ((True,) if with_float else (False, True)):
-            for schema in (None, S, derived):
+            for schema in (None, S, derived, reordered):
                 T = schema if schema is not None else S
-                for names in (None, ["item"], ["item-set"], ["item-phenomenon", "item"]):
+                for names in (None, ["item"], ["item-set", "set"], ["item-phenomenon", "item"]):
                     for dst in ("inplace", "new", "existing"):
                         for gz in (False, True):
                             yield {"kind": "db", "op": "db", "src_schema": S, "src_files": files,
@@ -456,7 +464,7 @@ def db_fixed():
                                    "dst_files": None if dst == "inplace" else [] if dst == "new" else stale,
                                    "names": None if names is None else [cps(n) for n in names],
                                    "names_as": "list" if gz else "iter", "schema": schema, "gzip": gz,
-                                   "watch": [cps("item"), cps("item-phenomenon"), cps("item-set")],
+                                   "watch": [cps("item"), cps("item-phenomenon"), cps("item-set"), cps("set")],
                                    "sel": {uncps(t["name"]): [t["fields"][-1]["name"], t["fields"][0]["name"]] for t in T},
                                    "stream": "fixed"}
 
@@ -610,7 +618,31 @@ def gen_schema_parse(rng):
             lines.append(rng.choice(["", " ", "\t "]))
         else:
             lines.append("".join(rng.choice(LINE_ALPHA) for _ in range(rng.randrange(1, 7))))
-    return {"kind": "schema_parse", "op": "schema_parse", "lines": [cps(x) for x in lines]}
+    return {"kind": "schema_parse", "op": "schema_parse", "text": cps(join_odd(rng, lines))}
+
+
+BREAKS = ["\n", "\n", "\n", "\r\n", "\r", "\x0b", "\x0c", "\x1c", "\x1d", "\x1e", "\x85", "\u2028", "\u2029", "\n\n", "\r\r\n"]
+ODD_SPACES = [" ", " ", "\t", "\xa0", "\u2003", "\u3000", "\x1f", "\u1680", "\u202f", "\u205f"]
+
+
+def join_odd(rng, lines):
+    """schema text from lines: odd line breaks, odd spacing, sometimes damaged"""
+    out = []
+    for ln in lines:
+        if rng.random() < 0.3:
+            ln = "".join(rng.choice(ODD_SPACES) if ch == " " and rng.random() < 0.5 else ch for ch in ln)
+        out.append(ln)
+        out.append(rng.choice(BREAKS) if rng.random() < 0.5 else "\n")
+    text = "".join(out)
+    r = rng.random()
+    if r < 0.15 and text:
+        text = text[:rng.randrange(len(text))]            # truncated
+    elif r < 0.25:
+        text = text.rstrip("\n")                          # no final newline
+    elif r < 0.3 and text:
+        i = rng.randrange(len(text))
+        text = text[:i] + rng.choice(["#", ":", " ", "\r", "\x00", "x"]) + text[i:]
+    return text
 
 
 def schema_parse_fixed():
@@ -618,7 +650,13 @@ def schema_parse_fixed():
                   ["item:", "x   "], ["x :integer"], ["item:", "item:"], ["item:", "", "item:"], ["a:b:", " x y"],
                   ["item:", "x y#"], ["item:", "x y #  "], ["item:", "x y # z:"], ["item:", "x\ty\tz"], ["1:", "-:"],
                   ["item:", "x :string # a # b"], [":"], ["::"], ["a::"], ["item:", "x :string # é"], ["item:", "x :string", "", "parse:", "y :integer"]):
-        yield {"kind": "schema_parse", "op": "schema_parse", "lines": [cps(x) for x in lines]}
+        yield {"kind": "schema_parse", "op": "schema_parse", "text": cps("\n".join(lines))}
+    for text in ("", "\n", "a:", "a:\r\n  x :s\r\n", "a:\r  x :s\r\rb:\r", "a:\x0b  x :s", "a:\x1c x :s\x1d\x1eb:",
+                 "a:\x85 x :s", "a:\u2028 x :s \u2029", "a:\n\xa0\xa0x\xa0:s\xa0:k\xa0#\xa0c\xa0\n", "a:\n\u3000x\u2003:s\n",
+                 "a:\n x :s\x1f:k\n", "a:\n x :s # c\x1f\n", "item:\n  i-id :integer :key                    # id\n\nparse:\n",
+                 "item:\n  i-id :integer :key", "item:\n  i-id :integ", "item\n  i-id :integer", "  i-id :integer\nitem:\n",
+                 "item:\n\n\n\n  i-id :integer\n", "item:\nitem:\n", "item:\n x y\nparse:\n z w\nitem:\n", "a:\n x\x00y :s\n"):
+        yield {"kind": "schema_parse", "op": "schema_parse", "text": cps(text)}
 
 
 # ---------------------------------------------------------------- carriage returns and friends
@@ -699,9 +737,11 @@ class C09(Check):
         "relation names are dot-free (tsdb._get_paths strips a dotted suffix: 'it.a' and 'it.b' share the file "
         "'it' - observation, outside the generated space) and start with a letter or digit; column names over "
         "[a-z0-9-]; datatypes :integer/:string/:date (floats never cross the model boundary)",
-        "the relations file is modelled at line level (list of lines of the text); names, flags and comments in "
-        "generated schemas are printable ASCII (+TAB in comments), so str.splitlines, \\w, \\s and str.strip agree "
-        "with the ASCII definitions of the model; relation names in db/hist cases start with a letter or digit",
+        "the relations file is modelled as its character text (write_schema / read_schema through a model of "
+        "str.splitlines, str.strip, str.split and hand-coded matchers for the two _parse_schema patterns); \\w is "
+        "modelled on ASCII, \\s / str.isspace on ASCII plus FS GS RS US NEL NBSP and the Unicode Zs/LS/PS spaces; "
+        "generated relation, field, flag names are ASCII; tsdb.open, Database[...] and the three select_from variants "
+        "are modelled and compared after every step (float columns excepted)",
         "write_database sources are opened with autocast=False (raw cells copied verbatim) or autocast=True "
         "(typed values: the model casts every source cell with the C08 cast and prints it with the C08 format; "
         "remake by name on typed values is `remakeV`); cells of planted files are castable in their column and "
@@ -725,7 +765,7 @@ class C09(Check):
               ("FieldStr", "Field.__str__", False), ("FieldInit", "Field.__init__", False),
               ("Split", "split", False), ("Join", "join", False), ("RelationInit", "Relation.__init__", False),
               ("DatabaseInit", "Database.__init__", False), ("DatabaseGetitem", "Database.__getitem__", False),
-              ("SelectFrom", "Database.select_from", False)]
+              ("SelectFrom", "Database.select_from", False), ("MakeFieldIndex", "make_field_index", False)]
 
     def tables(self):
         """Constants (string/number/None/bool literals, keyword arguments with literal values, for `_get_paths`
@@ -787,6 +827,7 @@ class C09(Check):
         lines.append("def c09Defaults : List (String × String × String) := [%s]"
                      % ", ".join("(%s, %s, %s)" % (lit(a), lit(b), lit(c)) for a, b, c in defaults))
         lines.append("def c09SchemaFilename : String := %s" % lit(tsdb.SCHEMA_FILENAME))
+        lines.append("def c09CastAlias : Bool := %s" % ("true" if tsdb._cast is tsdb.cast else "false"))
         return lines
 
     root = None
@@ -850,7 +891,9 @@ class C09(Check):
             if case["kind"] == "schema_rt":
                 return self._impl_schema_rt(case, d)
             if case["kind"] == "schema_parse":
-                return guarded_schema(lambda: tsdb._parse_schema("\n".join(uncps(l) for l in case["lines"])))
+                with open(os.path.join(d, "relations"), "wb") as f:
+                    f.write(uncps(case["text"]).encode("utf-8"))
+                return guarded_schema(lambda: tsdb.read_schema(d))
             return self._impl_db(case, d)
         finally:
             shutil.rmtree(d, ignore_errors=True)
@@ -863,7 +906,7 @@ class C09(Check):
             tsdb.initialize_database(d, schema)
         with open(os.path.join(d, "relations"), encoding="utf-8", newline="") as f:
             text = f.read()
-        return {"lines": [cps(x) for x in text.splitlines()],
+        return {"text": cps(text),
                 "parsed": guarded_schema(lambda: tsdb.Database(d).schema)}
 
     def _impl_hist(self, case, d):
@@ -972,11 +1015,11 @@ class C09(Check):
     def model_request(self, case):
         if case["kind"] == "hist":
             return {"op": "hist", "fields": [{"name": f["name"], "dt": f["dt"]} for f in case["fields"]],
-                    "start": case["start"], "ops": case["ops"]}
+                    "start": case["start"], "ops": case["ops"], "sel": case.get("sel")}
         if case["kind"] == "schema_rt":
             return {"op": "schema_rt", "schema": model_schema(case["schema"])}
         if case["kind"] == "schema_parse":
-            return {"op": "schema_parse", "lines": case["lines"]}
+            return {"op": "schema_parse", "text": case["text"]}
         sj = model_schema
         if any(f["dt"] == ":float" for sc in (case["src_schema"], case["schema"] or []) for t in sc for f in t["fields"]):
             return None                       # float columns: direct oracle only
@@ -984,7 +1027,8 @@ class C09(Check):
                 "src_autocast": bool(case.get("src_autocast", False)),
                 "dst_files": case["dst_files"] if case["dst"] != "inplace" else None,
                 "names": case["names"], "schema": sj(case["schema"]) if case["schema"] is not None else None,
-                "gzip": case["gzip"], "watch": case["watch"]}
+                "gzip": case["gzip"], "watch": case["watch"],
+                "sel": [case["sel"].get(uncps(w)) for w in case["watch"]]}
 
     def model_expected(self, case, impl_res):
         return strip(impl_res)
@@ -1005,7 +1049,7 @@ class C09(Check):
         if case["kind"] == "schema_rt":
             if case.get("region") and res["parsed"] != {"ok": want_schema_of(case["schema"])}:
                 return [{"clause": "a database initialised with a schema cannot be opened with the same schema",
-                         "detail": {"lines": [uncps(x) for x in res["lines"]], "got": res["parsed"]}}]
+                         "detail": {"text": uncps(res["text"]), "got": res["parsed"]}}]
             return []
         if case["kind"] == "schema_parse":
             return []
@@ -1019,7 +1063,7 @@ class C09(Check):
         elif case["kind"] == "schema_rt":
             pass
         elif case["kind"] == "schema_parse":
-            if not any(case["lines"]):
+            if not case["text"]:
                 return None
         elif res["res"] != "ok" or not any(r.get("tx") or r.get("gz") for r in res["rels"]):
             return None
@@ -1037,7 +1081,7 @@ class C09(Check):
                 inc("schema_rt.one_char_relation")
             if any(f.get("comment") for t in case["schema"] for f in t["fields"]):
                 inc("schema_rt.with_comment")
-            if any(len(uncps(l)) > 42 and "#" in uncps(l) for l in res["lines"]):
+            if any(len(l) > 42 and "#" in l for l in uncps(res["text"]).splitlines()):
                 inc("schema_rt.comment_without_padding")
         elif case["kind"] == "schema_parse":
             inc("schema_parse:" + ("ok" if "ok" in res else res["err"]))
